@@ -178,6 +178,7 @@ void fn_in_limbs(const char *k, const mp_limb_t *p, mp_size_t n) { fn_key(k); j_
 void fn_in_int(const char *k, long v) { fn_key(k); fprintf(tr, "%ld", v); }
 void fn_in_u64(const char *k, uint64_t v) { fn_key(k); j_hex_u64(v); }
 void fn_in_str(const char *k, const char *s) { fn_key(k); j_str(s); }
+void fn_in_raw(const char *k, const char *json) { fn_key(k); fputs(json, tr); }
 /* inputs done: from here until fn_out_* the real trace receives the allocator events of the call */
 static FILE *fn_mem;
 void fn_mid(void) { fputs("},\"o\":{", tr); fn_first = 1; fn_mem = tr; tr = tr_real; }
@@ -346,3 +347,5 @@ void rec_free_str(char *s) {
   { int keep = alloc_log; alloc_log = 0; ff(s, n); alloc_log = keep; }
 }
 void rec_note(const char *fmt, ...) { va_list ap; va_start(ap, fmt); vfprintf(stderr, fmt, ap); va_end(ap); }
+
+size_t rec_block_size(void *p) { blk *b = p ? blk_find(p, 0) : NULL; return b ? b->sz : 0; }
